@@ -577,6 +577,83 @@ Fixpoint rl_run (mutex : bool) (k : nat) (evs : list rl_ev) : option nat :=
   | Leave :: r => rl_run mutex (pred k) r
   end.
 
+(* ---------- lock order between the unit index and a unit's status ---------- *)
+
+(* Two locks: Workceptor.activeUnitsLock (LIndex) and one unit's BaseWorkUnit.statusLock (LStatus).
+   `work list` / `work status` read both; BaseWorkUnit.Release holds the status lock for the whole
+   removal of the unit directory and then takes the index lock to delete the entry.  Two
+   goroutines run their acquisition programs in any interleaving; a state in which neither can
+   take its next step is a deadlock.  [lk_explore] visits every interleaving. *)
+Inductive lk := LIndex | LStatus.
+Inductive acq := AR (l : lk) | UR (l : lk) | AW (l : lk) | UW (l : lk).
+
+Record rwst := mkrw { rw_readers : nat; rw_writer : bool }.
+Record lkstate := mklk { lk_index : rwst; lk_status : rwst; lk_p0 : list acq; lk_p1 : list acq }.
+
+Definition get_lk (s : lkstate) (l : lk) : rwst := match l with LIndex => lk_index s | LStatus => lk_status s end.
+Definition set_lk (s : lkstate) (l : lk) (v : rwst) : lkstate :=
+  match l with
+  | LIndex => mklk v (lk_status s) (lk_p0 s) (lk_p1 s)
+  | LStatus => mklk (lk_index s) v (lk_p0 s) (lk_p1 s)
+  end.
+
+(* the effect of one acquisition / release, None when it has to wait *)
+Definition acq_step (s : lkstate) (a : acq) : option lkstate :=
+  match a with
+  | AR l => let v := get_lk s l in
+            if rw_writer v then None else Some (set_lk s l (mkrw (S (rw_readers v)) false))
+  | UR l => let v := get_lk s l in Some (set_lk s l (mkrw (pred (rw_readers v)) (rw_writer v)))
+  | AW l => let v := get_lk s l in
+            if rw_writer v then None
+            else match rw_readers v with O => Some (set_lk s l (mkrw 0 true)) | S _ => None end
+  | UW l => let v := get_lk s l in Some (set_lk s l (mkrw (rw_readers v) false))
+  end.
+
+Definition thread_step (s : lkstate) (t : bool) : option lkstate :=
+  if t then
+    match lk_p1 s with
+    | [] => None
+    | a :: r => match acq_step s a with
+                | Some s' => Some (mklk (lk_index s') (lk_status s') (lk_p0 s') r)
+                | None => None
+                end
+    end
+  else
+    match lk_p0 s with
+    | [] => None
+    | a :: r => match acq_step s a with
+                | Some s' => Some (mklk (lk_index s') (lk_status s') r (lk_p1 s'))
+                | None => None
+                end
+    end.
+
+(* true: every interleaving runs both programs to their end *)
+Fixpoint lk_explore (fuel : nat) (s : lkstate) : bool :=
+  match fuel with
+  | O => false
+  | S f =>
+    match lk_p0 s, lk_p1 s with
+    | [], [] => true
+    | _, _ =>
+      match thread_step s false, thread_step s true with
+      | None, None => false                                  (* nobody can move: deadlock *)
+      | Some a, None => lk_explore f a
+      | None, Some b => lk_explore f b
+      | Some a, Some b => lk_explore f a && lk_explore f b
+      end
+    end
+  end.
+
+Definition lk_init (p0 p1 : list acq) : lkstate := mklk (mkrw 0 false) (mkrw 0 false) p0 p1.
+
+(* `work list` of the tree: ListKnownUnitIDs (index read section), then per unit findUnit (index
+   read section) and Status () (status read section) — never nested *)
+Definition list_ops : list acq := [AR LIndex; UR LIndex; AR LIndex; UR LIndex; AR LStatus; UR LStatus].
+(* a listing that reads the status INSIDE the index read section *)
+Definition list_ops_nested : list acq := [AR LIndex; AR LStatus; UR LStatus; UR LIndex].
+(* BaseWorkUnit.Release: status write lock (held during RemoveAll), then index write lock *)
+Definition release_ops : list acq := [AW LStatus; AW LIndex; UW LIndex; UW LStatus].
+
 (* ---------- correspondence cases ---------- *)
 
 Definition rcode (r : rclass) : N := match r with ROk => 0 | RErr => 1 | RStream => 2 end.
